@@ -13,7 +13,7 @@ PLAN['C16'] = dict(
          'distinct = hash(format, descriptors, pattern, options)',
     counter_names=['entries compared', 'child probes', 'child deaths', 'file bytes'],
     min_nontrivial={'quick': 1800, 'thorough': 60000},
-    require_tags={'quick': ['fmt=HB', 'fmt=RB', 'fmt=MM', 'fmt=TRI', 'fmt=TRINH', 'type=RUA', 'type=RSA', 'type=CUA', 'type=CSA', 'type=RRA', 'type=CRA',
+    require_tags={'quick': ['value-fields=touching', 'fmt=HB', 'fmt=RB', 'fmt=MM', 'fmt=TRI', 'fmt=TRINH', 'type=RUA', 'type=RSA', 'type=CUA', 'type=CSA', 'type=RRA', 'type=CRA',
                             'vfmt=E', 'vfmt=D', 'vfmt=F', 'P=none', 'P=nocomma', 'P=comma', 'explet=E', 'explet=D', 'explet=e', 'explet=d', 'explet=m', 'exp3=1',
                             'rhs=0', 'rhs=1', 'diag=all', 'diag=some', 'diag=none', 'mm=symmetric', 'mm=general', 'mm-tri=lower', 'mm-tri=upper', 'mm-tri=mixed',
                             'mm-order=shuffled', 'mm-comments=0', 'mm-comments=2', 'base=0', 'base=1', 'hdr=2', 'hdr=3', 'lastline=short', 'lastline=full',
